@@ -75,7 +75,8 @@ func (monC01) TaskEnd(s *Sim, t *Task) {
 		return canary[node]
 	}
 	// M3: duplicates
-	for node, pods := range byNode {
+	for _, node := range sortedKeys(byNode) {
+		pods := byNode[node]
 		n := v.Nodes[node]
 		if n == nil || !eligibleSpec(n, spec) || !inScope(node) {
 			continue
@@ -125,7 +126,8 @@ func (monC01) TaskEnd(s *Sim, t *Task) {
 	}
 	// M4: pods on nodes that are missing or not eligible any more (demanded of the active
 	// role only: the statement does not say whose template decides during a canary)
-	for node, pods := range byNode {
+	for _, node := range sortedKeys(byNode) {
+		pods := byNode[node]
 		if role != "active" {
 			break
 		}
